@@ -117,6 +117,10 @@ struct FamilyStats {
     violated: u64,
     known: u64,
     inconclusive_reasons: BTreeMap<String, u64>,
+    sigs: BTreeMap<String, u64>,
+    secs: f64,
+    max_secs: f64,
+    max_idx: u64,
 }
 
 struct Inner {
@@ -287,6 +291,7 @@ impl Ctx {
             None => (0..n).collect(),
         };
         let run_one = |idx: u64| {
+            let t0 = Instant::now();
             let mut case = Case {
                 family,
                 idx,
@@ -313,7 +318,15 @@ impl Ctx {
                     }
                 }
             };
+            let secs = t0.elapsed().as_secs_f64();
             self.record(case, out);
+            let mut g = self.inner.lock().unwrap();
+            let fs = g.families.entry(family.to_string()).or_default();
+            fs.secs += secs;
+            if secs > fs.max_secs {
+                fs.max_secs = secs;
+                fs.max_idx = idx;
+            }
         };
         if parallel {
             idxs.into_par_iter().for_each(run_one);
@@ -373,6 +386,11 @@ impl Ctx {
                     .known
                     .iter()
                     .find(|k| k.status == "open" && k.signature == sig);
+                *fs.sigs.entry(sig.clone()).or_insert(0) += 1;
+                if std::env::var("VERIF_VERBOSE").is_ok() {
+                    let short: String = serde_json::to_string(&detail).unwrap().chars().take(700).collect();
+                    println!("V family={} idx={} sig={} {}", case.family, case.idx, sig, short);
+                }
                 let mut d = Map::new();
                 d.insert("notes".into(), Value::Object(case.notes.clone()));
                 d.insert("detail".into(), detail);
@@ -448,7 +466,7 @@ impl Ctx {
                 replay_dir,
                 self.prop,
                 self.seed,
-                family,
+                family.replace('/', "_"),
                 idx
             );
             let body = json!({
@@ -532,11 +550,14 @@ impl Ctx {
         );
         for (name, fs) in &g.families {
             println!(
-                "  family {name}: cases={} held={} nontrivial={} inconclusive={} violated={} known={}",
-                fs.cases, fs.held, fs.nontrivial, fs.inconclusive, fs.violated, fs.known
+                "  family {name}: cases={} held={} nontrivial={} inconclusive={} violated={} known={} cpu_s={:.1} slowest_case={}({:.1}s)",
+                fs.cases, fs.held, fs.nontrivial, fs.inconclusive, fs.violated, fs.known, fs.secs, fs.max_idx, fs.max_secs
             );
             for (r, c) in &fs.inconclusive_reasons {
                 println!("      inconclusive x{c}: {r}");
+            }
+            for (r, c) in &fs.sigs {
+                println!("      violated x{c}: {r}");
             }
         }
         if !by_sig.is_empty() {
